@@ -46,9 +46,10 @@ def analyse(ctx, prog, chk):
     nc = c02.rule_const_in(ctx, prog, chk, prefix=("src/fb/", "src/fbx/", "src/low/easy/relic_fb", "src/eb/"))
     ebfam = [fn for fn in prog.all if EBFAM.match(fn.name.split("__")[-1]) and not EBNOT.search(fn.name) and (fn.rfile.startswith("src/eb/") or "selftest" in fn.file)]
     ns = expsib.rule_sm_sign(ctx, prog, chk, ebfam, EBFAM)
+    nb = expsib.rule_loop_bits(ctx, prog, chk, fam + ebfam)
     npa = alias.rule(ctx, prog, chk, lambda fn: fn.rfile.startswith("src/eb/"), {}, points=True)[0]
     nr = alias.rule_out_rbw(ctx, prog, chk, lambda fn: fn.rfile.startswith("src/eb/"), re.compile(r"^eb_t\b"), exceptions=OUT_RBW_OK)
-    return {"inv": ni, "exp": len(fam), "alias": na, "const": nc, "sign": ns, "rbw": nr, "palias": npa}
+    return {"inv": ni, "exp": len(fam), "alias": na, "const": nc, "sign": ns, "rbw": nr, "palias": npa, "bits": nb}
 
 
 def selfcheck(ctx, prog, chk):
@@ -62,6 +63,7 @@ def run(ctx, chk):
     chk.floor("ALIAS-RW", "output/input pairs of the same type", c["alias"], 40)
     chk.floor("CONST-IN", "const pointer parameters of the module", c["const"], 80)
     chk.floor("ALIAS-RW", "output/input pairs incl. single binary-curve points", c["alias"] + c["palias"], 80)
+    chk.floor("LOOP-BITS", "bit scans of exponents and scalars", c["bits"], 5)
     chk.floor("SM-SIGN", "scalar parameters of the binary-curve multiplication siblings", c["sign"], 25)
     chk.floor("OUT-RBW", "output points of binary-curve functions that also take an input point", c["rbw"], 40)
     if chk.tier == "thorough":
